@@ -4,10 +4,11 @@ concurrent builders do not edit the shared registry - merge at will).
     /venv/bin/python -m selftest.mutations_c18 [id ...]     # runs ./check C18 on each mutant
     /venv/bin/python -m selftest.mutations_c18 --fixed      # only the repaired tree: must exit 0
 
-The unchanged tree already violates C18 (F8, a bare top-level image canvas is never tracked, one
-disguise change per vanished cview aliases modulo 3), so every mutant is applied ON TOP of the three
-repairs below (REPAIRS) and counts as caught iff the quick check exits 1.  The repaired tree itself
-must exit 0.  ``equivalent`` marks a mutant that cannot change behaviour (documented, expected
+The tree as designed against (repo commit 840eec5) violated C18 in three ways (F8, a bare top-level
+image canvas never tracked, one disguise change per vanished cview aliasing modulo 3); they were
+repaired in /repo by f57fa90, 1f1e502 and 1fd30ed.  Every mutant is applied on top of the repairs
+(REPAIRS are applied only where the scratch copy still has the old code) and counts as caught iff
+the quick check exits 1.  The repaired tree itself must exit 0.  ``equivalent`` marks a mutant that cannot change behaviour (documented, expected
 exit 0).
 """
 
@@ -147,8 +148,11 @@ def build(mid: str | None) -> Path:
     subprocess.run(["rsync", "-a", "/repo/src", str(root) + "/"], check=True)
     f = root / "src" / "term_image" / FILE
     text = f.read_text()
-    edits = list(REPAIRS) + ([MUTATIONS[mid]] if mid else [])
-    for e in edits:
+    for e in REPAIRS:  # skipped where /repo already carries the repair (fix commits f57fa90, 1f1e502, 1fd30ed)
+        if text.count(e["old"]) == 1:
+            text = text.replace(e["old"], e["new"])
+    if mid:
+        e = MUTATIONS[mid]
         if text.count(e["old"]) != 1:
             raise SystemExit(f"{mid}: pattern occurs {text.count(e['old'])} times")
         text = text.replace(e["old"], e["new"])
